@@ -83,7 +83,7 @@ TD15_THOROUGH = [('tdigest.rs', 'c15_td_endpoints_3', 'bounded(3 centroids)'),
                  ('tdigest.rs', 'c15_td_cdf_shape_2', 'bounded(2 centroids; x on j/8)'),
                  ('tdigest.rs', 'c15_td_consistent_2', 'bounded(2 centroids, strict knots)')]
 TD16_QUICK = [('tdigest.rs', 'c16_td_insert_weighted_inner', 'complete: all finite x, all finite positive w, all non-NaN min/max (loop-free)'),
-              ('tdigest.rs', 'c16_td_insert_weighted_inner_pending', 'complete: one arbitrary pending entry + one arbitrary centroid, all finite x, all finite positive w (loop-free)'),
+              ('tdigest.rs', 'c16_td_insert_weighted_inner_pending', 'bounded(one pending entry + one centroid; weights 1..4, values on j/4: exact arithmetic): mass conserved wherever the insert is parked'),
               ('tdigest.rs', 'c16_td_zero_weight_noop', 'complete: all finite x (loop-free)'),
               ('tdigest.rs', 'c16_td_count_sum_exact', 'bounded(2 centroids; weights 1..4, grid j/4)'),
               ('tdigest.rs', 'c16_td_first_read_sees_backlog', 'bounded(one weighted insert, grid values): first read merges the backlog'),
